@@ -887,21 +887,9 @@ func ruleGR6(c *Ctx) *rule {
 // traceToSort follows a slice value back through parameters to the result of Graph.Sort; it returns "" when it is
 // the unmodified result, else a reason.
 func (c *Ctx) traceToSort(v ssa.Value, depth int) string {
-	// no element stores, no sort/reverse calls on it
-	for _, ref := range valueReferrers(v) {
-		switch x := ref.(type) {
-		case *ssa.IndexAddr:
-			for _, rr := range valueReferrers(x) {
-				if st, ok := rr.(*ssa.Store); ok && st.Addr == ssa.Value(x) {
-					return "elements of the run order are overwritten at " + c.ipos(st)
-				}
-			}
-		case *ssa.Call:
-			n := calleeName(x.Common())
-			if strings.HasPrefix(n, "sort.") || strings.HasPrefix(n, "slices.") {
-				return "the run order is re-ordered by " + n + " at " + c.ipos(x)
-			}
-		}
+	// no element stores, no sort/reverse calls on it or on an alias of it
+	if why := c.sliceMutation(v, 3, map[ssa.Value]bool{}); why != "" {
+		return why
 	}
 	switch x := v.(type) {
 	case *ssa.Extract:
@@ -954,6 +942,104 @@ func (c *Ctx) traceToSort(v ssa.Value, depth int) string {
 		return "the run order is the result of " + calleeName(x.Common()) + ", not of Graph.Sort directly"
 	}
 	return "the run order does not come from Graph.Sort"
+}
+
+// sliceMutation looks for a place where the elements of slice v (or of a value sharing its backing array: an interface
+// holding it, a conversion, a captured copy, the parameter of a module function it is passed to) are overwritten or
+// re-ordered. It returns "" when there is none.
+func (c *Ctx) sliceMutation(v ssa.Value, depth int, seen map[ssa.Value]bool) string {
+	if seen[v] {
+		return ""
+	}
+	seen[v] = true
+	readers := map[string]bool{"Contains": true, "ContainsFunc": true, "Index": true, "IndexFunc": true, "Equal": true, "EqualFunc": true,
+		"Max": true, "MaxFunc": true, "Min": true, "MinFunc": true, "BinarySearch": true, "BinarySearchFunc": true, "IsSorted": true, "IsSortedFunc": true,
+		"Clone": true, "Values": true, "All": true, "Collect": true, "Compare": true, "CompareFunc": true}
+	for _, ref := range valueReferrers(v) {
+		switch x := ref.(type) {
+		case *ssa.IndexAddr:
+			if x.X != v {
+				continue
+			}
+			for _, rr := range valueReferrers(x) {
+				if st, ok := rr.(*ssa.Store); ok && st.Addr == ssa.Value(x) {
+					return "elements of the run order are overwritten at " + c.ipos(st)
+				}
+			}
+		case *ssa.MakeInterface, *ssa.ChangeType, *ssa.Convert:
+			if why := c.sliceMutation(x.(ssa.Value), depth, seen); why != "" {
+				return why
+			}
+		case *ssa.Store:
+			// spilled into a local cell (a variable captured by a closure): every load of the cell is the same slice
+			cell, isAlloc := x.Addr.(*ssa.Alloc)
+			if x.Val != v || !isAlloc {
+				continue
+			}
+			cells := []ssa.Value{cell}
+			for _, cr := range valueReferrers(cell) {
+				if mc, ok := cr.(*ssa.MakeClosure); ok {
+					if fn, _ := mc.Fn.(*ssa.Function); fn != nil {
+						for i, b := range mc.Bindings {
+							if b == ssa.Value(cell) && i < len(fn.FreeVars) {
+								cells = append(cells, fn.FreeVars[i])
+							}
+						}
+					}
+				}
+			}
+			for _, cl := range cells {
+				for _, cr := range valueReferrers(cl) {
+					if u, ok := cr.(*ssa.UnOp); ok && u.Op == token.MUL {
+						if why := c.sliceMutation(u, depth, seen); why != "" {
+							return why
+						}
+					}
+				}
+			}
+		case *ssa.MakeClosure:
+			fn, _ := x.Fn.(*ssa.Function)
+			for i, b := range x.Bindings {
+				if b == v && fn != nil && i < len(fn.FreeVars) {
+					if why := c.sliceMutation(fn.FreeVars[i], depth, seen); why != "" {
+						return why
+					}
+				}
+			}
+		case ssa.CallInstruction:
+			com := x.Common()
+			if bi, ok := com.Value.(*ssa.Builtin); ok {
+				if bi.Name() == "copy" && len(com.Args) == 2 && com.Args[0] == v {
+					return "the run order is overwritten by copy at " + c.ipos(x)
+				}
+				continue
+			}
+			n := calleeName(com)
+			if strings.HasPrefix(n, "sort.") || strings.HasPrefix(n, "math/rand") {
+				return "the run order is re-ordered by " + n + " at " + c.ipos(x)
+			}
+			if strings.HasPrefix(n, "slices.") {
+				base := strings.TrimPrefix(n, "slices.")
+				if i := strings.IndexByte(base, '['); i >= 0 {
+					base = base[:i]
+				}
+				if !readers[base] {
+					return "the run order is re-ordered by " + n + " at " + c.ipos(x)
+				}
+				continue
+			}
+			if callee := com.StaticCallee(); callee != nil && inModule(callee) && len(callee.Blocks) > 0 && depth > 0 && !com.IsInvoke() {
+				for i, a := range com.Args {
+					if a == v && i < len(callee.Params) {
+						if why := c.sliceMutation(callee.Params[i], depth-1, seen); why != "" {
+							return why
+						}
+					}
+				}
+			}
+		}
+	}
+	return ""
 }
 
 func ruleGR7(c *Ctx) *rule {
@@ -1040,7 +1126,7 @@ func graphProperties() []*propertySpec {
 			Explanation: "Static analysis of the graph builder and the run loop: GR1 proves the dependency discovery has feedback (a reader of Task.TaskDependencies reachable from SpokFile.Run is on a call-graph cycle or in a work-list loop), which is necessary for visiting every graph shape; GR2 proves the direction of every AddEdge by slicing its arguments; GR3 proves every use of the Sort result is dominated by len(order) == graph.Order() with an erroring mismatch edge (the library's Kahn sort silently truncates on cycles); GR4/GR5 prove by edge-dominance that undefined names and duplicate definitions end in errors and that every vertex payload comes from a checked lookup; GR6 proves the run loop visits the unmodified Sort result front to back with exactly one run/skip event and one appended result per iteration; GR7 that vertex ids derive from both the request list and TaskDependencies and library errors are propagated.",
 			NotCovered:  []string{"correctness of Kahn's algorithm in collections/dag", "what still runs after a command failure beyond the per-iteration discipline of GR6"},
 			Assumptions: []string{"collections/dag v0.10.0: Sort returns each vertex at most once, dependencies first for the acyclic part, and a truncated order with nil error when a cycle coexists with a zero in-degree vertex; AddVertex errors on duplicates; AddEdge errors on unknown ids"},
-			Rules:       []func(*Ctx) *rule{ruleGR1, ruleGR2, ruleGR3, ruleGR4, ruleGR5, ruleGR6, ruleGR7, ruleGR8, ruleST7}},
+			Rules:       []func(*Ctx) *rule{ruleGR1, ruleGR2, ruleGR3, ruleGR4, ruleGR5, ruleGR6, ruleGR7, ruleGR8, ruleST7, ruleTK1}},
 	}
 }
 
